@@ -90,6 +90,26 @@ func genWorld(r *rand.Rand) *model.World {
 		}
 		w.Root[k] = &model.Setting{Ex: e}
 	}
+	if r.Intn(5) == 0 {
+		// a value that tests the object it is used in, the object, and a
+		// reference to the object: the value differs inside and outside the
+		// object's evaluation
+		p := r.Perm(4)
+		n := func(i int) string { return []string{"a", "b", "c", "d"}[p[i]] }
+		w.Root[n(0)] = &model.Setting{Ex: &model.Ex{Kind: model.XAlt, Name: model.Lit("o"), Rhs: model.Lit("yes")}}
+		w.Root["o.x"] = &model.Setting{Ex: (&model.Ex{Kind: model.XCat, Kids: []*model.Ex{model.Lit("x"), model.Ref(n(0))}}).Normalize()}
+		w.Root[n(1)] = &model.Setting{Ex: model.Ref("o")}
+		if r.Intn(2) == 0 {
+			w.Root[n(2)] = &model.Setting{Ex: model.Ref(n(1))}
+		}
+	}
+	if r.Intn(3) == 0 {
+		// a plain list, used by exact single references (possibly several)
+		w.Root["l"] = &model.Setting{Val: model.List(model.P("x"), model.P("y"))}
+		for i, c := 0, 1+r.Intn(3); i < c; i++ {
+			w.Root[rndNames[r.Intn(6)]] = &model.Setting{Ex: model.Ref("l")}
+		}
+	}
 	if r.Intn(2) == 0 {
 		res := map[string]string{}
 		for _, nm := range refNames {
@@ -110,6 +130,10 @@ func describe(w *model.World) string {
 	sort.Strings(ks)
 	var parts []string
 	for _, k := range ks {
+		if w.Root[k].Ex == nil {
+			parts = append(parts, fmt.Sprintf("%s=%v", k, w.Root[k].Val))
+			continue
+		}
 		parts = append(parts, fmt.Sprintf("%s=%q", k, w.Root[k].Ex.Render(false)))
 	}
 	return fmt.Sprintf("{%s} resolvers=%v", strings.Join(parts, ", "), w.Ress)
@@ -117,7 +141,7 @@ func describe(w *model.World) string {
 
 func hasEdges(w *model.World) bool {
 	for _, s := range w.Root {
-		if s.Ex.HasVar() {
+		if s.Ex != nil && s.Ex.HasVar() {
 			return true
 		}
 	}
@@ -220,6 +244,9 @@ func runWorld(res *harness.R, w *model.World, r *rand.Rand, verbose, sample bool
 			return // one witness per graph is enough (and keeps a non-terminating tree cheap)
 		}
 		s := w.Root[k]
+		if s.Ex == nil {
+			continue
+		}
 		// deep: the read unpacks what it finds (objects member by member);
 		// shallow: the read only looks at the setting itself (String, Has,
 		// CountField, Child)
@@ -324,6 +351,64 @@ func runWorld(res *harness.R, w *model.World, r *rand.Rand, verbose, sample bool
 			res.Violate("acyclic-read-fails", "Unpack of the whole config failed with %v although no read re-enters a reference and every setting resolves; %s", uerr, desc)
 		}
 	}
+	// Reads are independent of each other: what a whole-config read yields for
+	// a setting equals what reading that setting alone (a fresh call, nothing
+	// evaluated before) yields. Checked for the map target and for structs of
+	// interface{} fields in several declaration orders (= evaluation orders).
+	if !anyErr && !aborted {
+		var tops []string
+		alone := map[string]string{}
+		for k := range w.Root {
+			tk := topKey(k)
+			if _, ok := alone[tk]; ok {
+				continue
+			}
+			var v interface{}
+			var e error
+			if !guarded("single read of "+tk, func() { v, e = vx.ReadField(b.C, tk, nil, b.Opts) }) || e != nil {
+				alone = nil
+				break
+			}
+			alone[tk] = model.CanonIfc(v)
+			tops = append(tops, tk)
+		}
+		sort.Strings(tops)
+		if alone != nil && uerr == nil {
+			for _, k := range tops {
+				if got := model.CanonIfc(m[k]); got != alone[k] {
+					res.Violate("whole-config-read-differs-from-single-read", "Unpack into a map gives %s for %q, reading that setting alone gives %s; %s", got, k, alone[k], desc)
+					break
+				}
+			}
+			res.Ev("whole_vs_single_reads_compared", int64(len(tops)))
+		}
+		if alone != nil && len(tops) >= 2 && r != nil {
+			for round := 0; round < 3 && !aborted; round++ {
+				order := append([]string{}, tops...)
+				r.Shuffle(len(order), func(i, j int) { order[i], order[j] = order[j], order[i] })
+				var fields []reflect.StructField
+				for i, k := range order {
+					fields = append(fields, reflect.StructField{Name: fmt.Sprintf("F%d", i), Type: reflect.TypeOf((*interface{})(nil)).Elem(), Tag: reflect.StructTag(fmt.Sprintf(`config:"%s"`, k))})
+				}
+				p := reflect.New(reflect.StructOf(fields))
+				var serr error
+				if !guarded("Unpack(struct of interface{} fields)", func() { serr = b.C.Unpack(p.Interface(), b.Opts...) }) {
+					break
+				}
+				res.SetAdd("entry_point", "Unpack(struct of interface{})")
+				if serr != nil {
+					res.Violate("whole-config-read-differs-from-single-read", "Unpack into a struct with interface{} fields in order %v failed with %q although every setting reads fine alone; %s", order, serr, desc)
+					break
+				}
+				for i, k := range order {
+					if got := model.CanonIfc(p.Elem().Field(i).Interface()); got != alone[k] {
+						res.Violate("whole-config-read-differs-from-single-read", "Unpack into a struct with interface{} fields in order %v gives %s for %q, reading that setting alone gives %s; %s", order, got, k, alone[k], desc)
+						break
+					}
+				}
+			}
+		}
+	}
 	// the whole config into one struct with a string field per top-level
 	// setting: several fields may use the same variable
 	if !anyReentry && !anyErr {
@@ -334,41 +419,115 @@ func runWorld(res *harness.R, w *model.World, r *rand.Rand, verbose, sample bool
 				continue
 			}
 			ev := model.NewEvaluator(w)
-			r := ev.EvalSetting(k, nil, false)
-			if r.IsErr || r.Container {
+			r := ev.EvalSetting(k, nil, true)
+			if r.IsErr {
 				continue
 			}
-			fields = append(fields, reflect.StructField{Name: "F" + strings.ToUpper(k), Type: reflect.TypeOf(""), Tag: reflect.StructTag(fmt.Sprintf(`config:"%s"`, k))})
-			want = append(want, r.S)
+			ft := reflect.TypeOf("")
+			wv := r.S
+			if r.Container {
+				if n, ok := r.Val.(*model.Node); ok && len(n.A) > 0 {
+					ft = reflect.TypeOf([]string(nil)) // a list, possibly reached by several fields
+					wv = fmt.Sprint(n.ToGo())
+				} else {
+					ft = reflect.TypeOf(map[string]interface{}(nil))
+					wv = "<object>"
+				}
+			}
+			fields = append(fields, reflect.StructField{Name: "F" + strings.ToUpper(k), Type: ft, Tag: reflect.StructTag(fmt.Sprintf(`config:"%s"`, k))})
+			want = append(want, wv)
 		}
 		if len(fields) >= 2 {
 			p := reflect.New(reflect.StructOf(fields))
 			var serr error
-			if guarded("Unpack(struct of strings)", func() { serr = b.C.Unpack(p.Interface(), b.Opts...) }) {
-				res.SetAdd("entry_point", "Unpack(struct of strings)")
+			if guarded("Unpack(typed struct)", func() { serr = b.C.Unpack(p.Interface(), b.Opts...) }) {
+				res.SetAdd("entry_point", "Unpack(typed struct)")
 				if serr != nil {
 					sig := "acyclic-read-fails"
 					if vx.IsCyclicErr(serr) {
 						sig = "repeated-use-reported-as-cycle"
 					}
-					res.Violate(sig, "Unpack into a struct with one string field per setting failed with %q although every setting resolves without re-entry; %s", serr, desc)
+					res.Violate(sig, "Unpack into a struct with one typed field (string, []string, map) per setting failed with %q although every setting resolves without re-entry; %s", serr, desc)
 				} else {
 					for i := range fields {
-						got := p.Elem().Field(i).String()
-						if got != want[i] && model.CanonIfc(vx.ExpectText(got)) != model.CanonIfc(vx.ExpectText(want[i])) {
-							res.Violate("wrong-substitution", "struct field %s = %q, model %q; %s", fields[i].Tag, got, want[i], desc)
-							break
+						fv := p.Elem().Field(i)
+						switch fv.Kind() {
+						case reflect.String:
+							got := fv.String()
+							if got != want[i] && model.CanonIfc(vx.ExpectText(got)) != model.CanonIfc(vx.ExpectText(want[i])) {
+								res.Violate("wrong-substitution", "struct field %s = %q, model %q; %s", fields[i].Tag, got, want[i], desc)
+							}
+						case reflect.Slice:
+							if got := fmt.Sprint(fv.Interface()); got != want[i] {
+								res.Violate("wrong-substitution", "struct field %s = %s, model %s; %s", fields[i].Tag, got, want[i], desc)
+							}
 						}
 					}
 				}
 			}
 		}
 	}
-	guarded("FlattenedKeys", func() { b.C.FlattenedKeys(b.Opts...) })
+	var fk []string
+	if guarded("FlattenedKeys", func() { fk = b.C.FlattenedKeys(b.Opts...) }) && !anyReentry {
+		// without any re-entry every setting contributes its own path, or - if
+		// it resolves to an object or list - the paths of the settings found there
+		var want []string
+		for _, k := range keys {
+			want = append(want, contrib(w, k, 0)...)
+		}
+		sort.Strings(want)
+		if strings.Join(fk, ",") != strings.Join(want, ",") {
+			res.Violate("flattenedkeys-wrong-for-acyclic-references", "FlattenedKeys = %v, expected %v (no read re-enters a reference); %s", fk, want, desc)
+		}
+		res.Ev("flattenedkeys_compared", 1)
+	}
 	res.SetAdd("entry_point", "FlattenedKeys")
 	guarded("diff.CompareConfigs", func() { diff.CompareConfigs(b.C, b.C, b.Opts...) })
 	res.SetAdd("entry_point", "diff.CompareConfigs")
 	res.SetAdd("max_resolve_events_per_read_log2", fmt.Sprint(log2(maxSteps)))
+}
+
+// contrib lists the keys FlattenedKeys reports for the root setting key in a
+// world without re-entry: its own path for text (also when it fails to
+// resolve), the paths below its final target for objects and lists.
+func contrib(w *model.World, key string, depth int) []string {
+	s := w.Root[key]
+	if depth > 20 {
+		return []string{key}
+	}
+	if s.Ex == nil {
+		if n, ok := s.Val.(*model.Node); ok {
+			var out []string
+			for i := range n.A {
+				out = append(out, fmt.Sprintf("%s.%d", key, i))
+			}
+			for _, k := range n.SortedKeys() {
+				out = append(out, key+"."+k)
+			}
+			return out
+		}
+		return []string{key}
+	}
+	if !s.Ex.IsSingleRef() {
+		return []string{key}
+	}
+	// follow the chain of exact single references
+	name := s.Ex.Name.Text
+	if _, ok := w.Root[name]; ok {
+		ev := model.NewEvaluator(w)
+		if r := ev.EvalSetting(name, nil, false); r.IsErr || !r.Container {
+			return []string{key} // text (or a failure): the referencing setting is the key
+		}
+		return contrib(w, name, depth+1)
+	}
+	if members := w.Members(name); len(members) > 0 {
+		var out []string
+		for _, m := range members {
+			out = append(out, contrib(w, m, depth+1)...)
+		}
+		return out
+	}
+	return []string{key}
 }
 
 func log2(n int) int {
